@@ -15,6 +15,7 @@ import (
 	"os"
 	"path/filepath"
 	"sort"
+	"strings"
 	"sync"
 	"syscall"
 	"time"
@@ -38,8 +39,11 @@ type edge struct {
 
 func (e edge) key() string {
 	role := e.Role
-	if role == "exholder" && inPath(e.Path, "releaselost") {
+	switch role {
+	case "exholder_rl":
 		role = "exholder(release-answer-lost)"
+	case "exholder_af":
+		role = "exholder(acquisition-failed)"
 	}
 	return fmt.Sprintf("%s/%s/walc=%v/%s/%s", e.Mode, e.PS, e.WalC, role, e.Op)
 }
@@ -273,7 +277,7 @@ func runEdge(rep *core.Report, e edge, l sim.Layout) {
 	runOp := func() {
 		db = victim.Store.DB("db")
 		// the image at the node's position: frames of a complete but uncaptured transaction do not count
-		if e.Role != "replica" && e.Role != "exholder" {
+		if e.Role != "replica" && !strings.HasPrefix(e.Role, "exholder") {
 			limit = pg.CommittedFrames()
 		}
 		before = factsUpTo(victim.Node, l, limit)
@@ -382,7 +386,7 @@ func runEdge(rep *core.Report, e edge, l sim.Layout) {
 			}
 		})
 	}
-	if e.Role == "replica" || e.Role == "exholder" {
+	if e.Role == "replica" || strings.HasPrefix(e.Role, "exholder") {
 		n2, err := cl.Start("n2", sim.ClusterNodeOpts{Candidate: false})
 		if err != nil {
 			core.Infra("start n2: %v", err)
@@ -399,52 +403,83 @@ func runEdge(rep *core.Report, e edge, l sim.Layout) {
 		if e.Mode == "wal" {
 			_ = vconn.OpenSHM()
 		}
-		if e.Role == "exholder" {
+		if strings.HasPrefix(e.Role, "exholder") {
 			// the replica is granted the halt lock (it is writable now), the lock ends on the primary the
 			// way an expiry ends it, the primary commits, and that transaction reaches the former holder
 			vdb := n2.Store.DB("db")
-			ctx, cancel := context.WithTimeout(context.Background(), 20*time.Second)
-			hl, err := vdb.AcquireRemoteHaltLock(ctx, 424242)
-			cancel()
-			if err != nil {
-				core.Infra("acquire halt lock on the replica: %v", err)
-			}
-			if !vdb.Writeable() {
-				core.Infra("halt lock holder is not writable")
-			}
-			if inPath(e.Path, "releaselost") {
-				// the holder gives the lock back; the primary executes the release, the answer is lost
-				n2.Client.LoseReleaseAnswer.Store(true)
-				rctx, rcancel := context.WithTimeout(context.Background(), 10*time.Second)
-				_ = vdb.ReleaseRemoteHaltLock(rctx, hl.ID)
-				rcancel()
+			if inPath(e.Path, "acquirefailed") {
+				// the replica lags (its stream delivers nothing for a while) when it asks for the lock: the primary grants
+				// it, the replica does not reach the lock's position in time, the acquisition fails
+				n2.Client.Hold()
+				defer n2.Client.Resume() // (a held stream would keep the node from closing)
+				if e.Mode == "wal" {
+					err = commitW(pg, sim.Plan{Kind: "w", Ns: 2, M: []int{1}, Out: "commit", V: 8, Wal: true}, 6)
+				} else {
+					err = commitJ(pg, sim.Plan{Kind: "j", Ns: 2, M: []int{1}, Out: "commit", Fin: "DELETE", V: 8})
+				}
+				if err != nil {
+					core.Infra("primary commit before the failing acquisition: %v", err)
+				}
+				n2.Store.HaltAcquireTimeout = 300 * time.Millisecond
+				actx, acancel := context.WithTimeout(context.Background(), 10*time.Second)
+				_, aerr := vdb.AcquireRemoteHaltLock(actx, 434343)
+				acancel()
+				if aerr == nil {
+					core.Infra("the acquisition of a lagging replica succeeded")
+				}
 				if n1.Store.DB("db").InWriteTx() {
-					core.Infra("the primary did not execute the release")
+					core.Infra("the primary still holds the halt lock after the failed acquisition: %v", aerr)
 				}
 				if vdb.Writeable() {
-					violate(rep, "C07.authority-ends-with-halt-lock", "former-holder-still-writable/release-answer-lost", map[string]any{
-						"remote_halt_lock": vdb.RemoteHaltLock(), "position": vdb.Pos().String(), "what": "the primary has released the halt lock (the answer to the holder's release was lost); the former holder still counts itself writable"}, e, l)
+					violate(rep, "C07.authority-ends-with-halt-lock", "failed-acquirer-writable", map[string]any{
+						"remote_halt_lock": vdb.RemoteHaltLock(), "position": vdb.Pos().String(), "acquire_error": sim.ErrString(aerr),
+						"what": "the acquisition of the halt lock failed (the replica did not reach the lock's position in time) and the lock was given back to the primary; the replica counts itself writable"}, e, l)
 				}
-				goto released
 			}
-			n1.Store.DB("db").ReleaseHaltLock(context.Background(), hl.ID)
-			if e.Mode == "wal" {
-				err = commitW(pg, sim.Plan{Kind: "w", Ns: 2, M: []int{1}, Out: "commit", V: 8, Wal: true}, 6)
-			} else {
-				err = commitJ(pg, sim.Plan{Kind: "j", Ns: 2, M: []int{1}, Out: "commit", Fin: "DELETE", V: 8})
+			if !inPath(e.Path, "acquirefailed") {
+				ctx, cancel := context.WithTimeout(context.Background(), 20*time.Second)
+				hl, err := vdb.AcquireRemoteHaltLock(ctx, 424242)
+				cancel()
+				if err != nil {
+					core.Infra("acquire halt lock on the replica: %v", err)
+				}
+				if !vdb.Writeable() {
+					core.Infra("halt lock holder is not writable")
+				}
+				if inPath(e.Path, "releaselost") {
+					// the holder gives the lock back; the primary executes the release, the answer is lost
+					n2.Client.LoseReleaseAnswer.Store(true)
+					rctx, rcancel := context.WithTimeout(context.Background(), 10*time.Second)
+					_ = vdb.ReleaseRemoteHaltLock(rctx, hl.ID)
+					rcancel()
+					if n1.Store.DB("db").InWriteTx() {
+						core.Infra("the primary did not execute the release")
+					}
+					if vdb.Writeable() {
+						violate(rep, "C07.authority-ends-with-halt-lock", "former-holder-still-writable/release-answer-lost", map[string]any{
+							"remote_halt_lock": vdb.RemoteHaltLock(), "position": vdb.Pos().String(), "what": "the primary has released the halt lock (the answer to the holder's release was lost); the former holder still counts itself writable"}, e, l)
+					}
+					goto released
+				}
+				n1.Store.DB("db").ReleaseHaltLock(context.Background(), hl.ID)
+				if e.Mode == "wal" {
+					err = commitW(pg, sim.Plan{Kind: "w", Ns: 2, M: []int{1}, Out: "commit", V: 8, Wal: true}, 6)
+				} else {
+					err = commitJ(pg, sim.Plan{Kind: "j", Ns: 2, M: []int{1}, Out: "commit", Fin: "DELETE", V: 8})
+				}
+				if err != nil {
+					core.Infra("primary commit after the halt lock ended: %v", err)
+				}
+				if err := cl.WaitPos("n2", "db", n1.Store.DB("db").Pos(), 20*time.Second); err != nil {
+					core.Infra("former holder did not receive the primary's transaction: %v", err)
+				}
+				if vdb.Writeable() {
+					violate(rep, "C07.authority-ends-with-halt-lock", "former-holder-still-writable", map[string]any{
+						"remote_halt_lock": vdb.RemoteHaltLock(), "position": vdb.Pos().String()}, e, l)
+					return
+				}
+			released:
 			}
-			if err != nil {
-				core.Infra("primary commit after the halt lock ended: %v", err)
-			}
-			if err := cl.WaitPos("n2", "db", n1.Store.DB("db").Pos(), 20*time.Second); err != nil {
-				core.Infra("former holder did not receive the primary's transaction: %v", err)
-			}
-			if vdb.Writeable() {
-				violate(rep, "C07.authority-ends-with-halt-lock", "former-holder-still-writable", map[string]any{
-					"remote_halt_lock": vdb.RemoteHaltLock(), "position": vdb.Pos().String()}, e, l)
-				return
-			}
-		released:
 		}
 	} else {
 		// advance the open transaction to the protocol state, then withdraw authority
